@@ -14,7 +14,9 @@ Inductive instr :=
 | Ibacktrack | Ijump (t : nat) | Ijumpifnot (t : nat)
 | Iindex (k : jv) | Icall (f : native)
 | Iscope (id nvars nargs : nat) | Iret | Iiter | Iexpbegin | Iexpend
-| Ipushpc (p : nat) | Icallpc.
+| Ipushpc (p : nat) | Icallpc
+| Icallf (p : nat)            (* opcall with a pc: a user-defined function *)
+| Icallrec (p : nat).         (* opcallrec: a self-recursive tail call that replaces the current frame *)
 
 (* abstract natives: total functions returning a value or an error *)
 Record natives := {
